@@ -520,6 +520,8 @@ var queryFamily = map[string]string{
 	"like":   `SELECT json_quote(id) AS id FROM $_keyspace WHERE id LIKE $pat`,
 	"idnum":  `SELECT json_quote(id) AS id FROM $_keyspace WHERE id = 'k' || $n`,
 	"veq":    `SELECT json_quote(id) AS id FROM $_keyspace WHERE json_type(body, '$.v') = 'integer' AND body->>'$.v' = $n`,
+	"xu1":    `SELECT json_quote(id) AS id, xattrs->'$.u1' AS u FROM $_keyspace WHERE xattrs->'$.u1' IS NOT NULL`,
+	"cols":   `SELECT body->'$.s' AS s, body->'$.v' AS v, json_quote(id) AS id, body->'$.w' AS w FROM $_keyspace`,
 }
 
 func (e *e1) expectedQuery(coll int, kind string, args map[string]any) []string {
@@ -564,10 +566,23 @@ func (e *e1) expectedQuery(coll int, kind string, args map[string]any) []string 
 			if v, ok := doc["v"].(float64); ok && v == float64(intArg(args["n"])) && v == float64(int64(v)) {
 				rows = append(rows, canonKey(map[string]any{"id": id}))
 			}
+		case "cols":
+			// several columns, some of them NULL for some documents: a NULL column is left out of the row
+			row := map[string]any{"id": id}
+			for _, c := range []string{"s", "v", "w"} {
+				if v, ok := doc[c]; ok {
+					row[c] = v
+				}
+			}
+			rows = append(rows, canonKey(row))
 		case "xnull":
 			// a document without xattrs looks the same to a query whichever way it came to have none
 			if len(d.X) == 0 {
 				rows = append(rows, canonKey(map[string]any{"id": id}))
+			}
+		case "xu1":
+			if s, ok := d.X["u1"]; ok {
+				rows = append(rows, canonKey(map[string]any{"id": id, "u": jsonValue(s)}))
 			}
 		case "xattr":
 			if s, ok := d.X["_sync"]; ok {
